@@ -22,7 +22,10 @@ def main(tier):
     data = e2props.load(run, profiles, ["iters"])
     for (prof, entry), recs in sorted(data.items()):
         seen = {}
+        e2props.undecided(run, [r for r in recs if "table" not in r], prof)
         for rec in recs:
+            if "table" not in rec:
+                continue
             t = rec["table"]
             name, meth = t.split("::", 1)
             seen[t] = seen.get(t, 0) + 1
@@ -39,12 +42,12 @@ def main(tier):
                 fx = {x: {k: v for k, v in rec.get("facts", {}).items()}}
                 if name in SINGLE:
                     start = SINGLE[name][0]
-                    v = stt.get("0/node")
+                    v = stt.get("node")
                     ok = v == ["Some", x] if start == "self" else is_field(v, fx, x, start)
                     run.ob("constructors", "%s::new/%s starts at %s" % (name, prof, start), ok, key="constructors|%s::new does not start at %s" % (name, start), detail=rec, nontrivial=nt, sample=True)
                 elif name in DOUBLE:
                     start = DOUBLE[name][0]
-                    v = stt.get("0/head")
+                    v = stt.get("head")
                     ok = v == ["Some", x] if start == "self" else is_field(v, fx, x, start)
                     run.ob("constructors", "%s::new/%s: front cursor starts at %s" % (name, prof, start), ok, key="constructors|%s::new front cursor does not start at %s" % (name, start), detail=rec, nontrivial=nt)
                 elif name == "Traverse":
@@ -54,19 +57,19 @@ def main(tier):
                     run.ob("constructors", "ReverseTraverse::new/%s = (root x, next End(x))" % prof, stt.get("root") == x and stt.get("next") == ["Some", ["End", x]],
                            key="constructors|ReverseTraverse::new is not (root, Some(End(root)))", detail=rec, nontrivial=nt)
                 elif name == "Descendants":
-                    run.ob("constructors", "Descendants::new/%s wraps Traverse::new(x)" % prof, stt.get("0/root") == x and stt.get("0/next") == ["Some", ["Start", x]],
+                    run.ob("constructors", "Descendants::new/%s wraps Traverse::new(x)" % prof, stt.get("root") == x and stt.get("next") == ["Some", ["Start", x]],
                            key="constructors|Descendants::new is not Traverse::new(node)", detail=rec, nontrivial=nt)
                 continue
             if name in SINGLE and meth == "next":
                 c = rec["info"].get("c")
                 if c is None:
-                    ok = rec["yield"] is None and stt.get("0/node") is None
+                    ok = rec["yield"] is None and stt.get("node") is None
                     run.ob("steps", "%s::next/%s on an exhausted cursor: None, stays exhausted" % (name, prof), ok, key="steps|%s::next: exhausted cursor not fused" % name, detail=rec, nontrivial=nt)
                     continue
                 okY = rec["yield"] == ["Some", c]
                 run.ob("steps", "%s::next/%s yields the cursor" % (name, prof), okY, key="steps|%s::next does not yield its cursor" % name, detail=rec, nontrivial=nt)
                 chain = SINGLE[name][1]
-                v = stt.get("0/node")
+                v = stt.get("node")
                 lk = links.get(c, {})
                 # documented step: first non-None link in `chain`
                 exp_ok = False
@@ -87,7 +90,7 @@ def main(tier):
                        detail=rec, nontrivial=nt, sample=True)
             elif name in DOUBLE and meth == "next" and rec["case"][0] == "SS-ne":
                 h = rec["info"]["h"]
-                ok = rec["yield"] == ["Some", h] and is_field(stt.get("0/head"), links, h, DOUBLE[name][1])
+                ok = rec["yield"] == ["Some", h] and is_field(stt.get("head"), links, h, DOUBLE[name][1])
                 run.ob("steps", "%s::next/%s: yields the front cursor, front' = %s" % (name, prof, DOUBLE[name][1]), ok,
                        key="steps|%s::next: front step is not `%s`" % (name, DOUBLE[name][1]), detail=rec, nontrivial=nt, sample=True)
             elif name in ("Traverse", "ReverseTraverse") and meth == "next":
